@@ -87,7 +87,7 @@ DISP = ['zero', 'sub-cell', 'multi-cell', 'many-periods', 'on-node', 'near-node'
 
 def gen_kernel_case(rng, k, tier):
     big = tier == 'thorough'
-    kind = 'cu' if k % 2 == 0 else 'nu'
+    kind = 'cu' if (k // len(DISP)) % 2 == 0 else 'nu'
     nq = rng.randint(7, 16 if big else 11)
     nz = rng.randint(7, 16 if big else 11)
     deg = 3 if kind == 'cu' else rng.choice([1, 2, 3, 3, 4, 5])
@@ -95,7 +95,7 @@ def gen_kernel_case(rng, k, tier):
     dz = F(rng.randint(1, 9), rng.choice([2, 3, 5]))
     cls = DISP[k % len(DISP)]
     zDist = gen_displacement(rng, nz, dz, cls)
-    twist = 'no-twist' if (k // len(DISP)) % 3 == 0 else 'twist'
+    twist = 'no-twist' if k % 7 in (0, 3, 4) else 'twist'
     iota = F(0) if twist == 'no-twist' else F(rng.choice([4, -13, 7, -3]), rng.choice([5, 10, 3]))
     dtheta = dz * iota / F(rng.choice([239, 100, 17]), rng.choice([1, 3]))
     z = dz * rng.choice([0, 1, 1, 2])
@@ -369,7 +369,7 @@ def object_case(c):
     warnings.simplefilter('ignore')
     from pygyro.advection.advection import FluxSurfaceAdvection
     rng = random.Random(c['seed'])
-    bs, eta = ac.real_spaces(c['npts'], c['degrees'], uniform=c['uniform'], rng=rng)
+    bs, eta = ac.real_spaces(c['npts'], c['degrees'], uniform=c['uniform'], rng=rng, dom=c.get('dom'))
     const = ac.real_constants(iota=c['iota'], slope=c['slope'])
     lay = ac.real_layout('flux_surface', [0, 3, 1, 2], eta)
     obj = FluxSurfaceAdvection(eta, [bs[1], bs[2]], lay, c['dt'], const)
@@ -423,8 +423,15 @@ def gen_object_cases(chk):
         dz = 1506.759067 / nz
         dt = rng.choice([-1, 1]) * rng.choice([2.0, 0.37 * dz, 1.3 * dz, dz * nz * 0.4, dz / 7.32, 3 * dz / 7.32, dz * 0.5])
         iota = [0.0, 0.8, -1.3][k % 3]
-        cases.append({'seed': chk.seed * 31 + k, 'npts': npts, 'degrees': [3, degq, 3, 3], 'uniform': uni, 'dt': dt, 'iota': iota,
-                      'slope': (0.05 if k % 5 == 4 else None), 'nsteps': 4 if big else 3, 'k': k})
+        case = {'seed': chk.seed * 31 + k, 'npts': npts, 'degrees': [3, degq, 3, 3], 'uniform': uni, 'dt': dt, 'iota': iota,
+                'slope': (0.05 if k % 5 == 4 else None), 'nsteps': 4 if big else 3, 'k': k, 'dom': None}
+        if k % 5 == 2:
+            # whole-cell displacements on a real object: dz = 1/2, v = -4..4 (degree 1: Greville = break points),
+            # no twist (bz = 1): zDist = -v*dt is an exact multiple of dz for every v
+            case.update(degrees=[3, degq, 3, 1], npts=[npts[0], nq, nz, 9], iota=0.0, slope=None, uniform=[True, uni[1], True, True],
+                        dt=rng.choice([-1, 1]) * 0.5 * rng.randint(1, nz),
+                        dom=[[0.1, 14.5], [0.0, 2 * math.pi], [0.0, 0.5 * nz], [-4.0, 4.0]])
+        cases.append(case)
     return cases
 
 
@@ -457,7 +464,8 @@ def judge_object(chk, c, o, answers):
             t += 1
             q = fr(zd) / fr(o['dz'])
             near = abs(q - round(q)) <= 4 * U * max(1, abs(q))
-            st = 'table/%s/%s' % ('neg' if zd < 0 else 'pos' if zd > 0 else 'zero', 'near-integer' if near else 'generic')
+            st = 'table/%s/%s' % ('neg' if zd < 0 else 'pos' if zd > 0 else 'zero',
+                                  'on-node' if q == round(q) else 'near-integer' if near else 'generic')
             chk.count(('tab', c['k'], a, b), stratum=st, sample={'dz': o['dz'], 'zDist': zd, 'dtheta': dth, 'shifts': o['shifts'][a][b]})
             if not ans.startswith('ok'):
                 chk.violation('_getLagrangePts:model-refuses', 'model answers %r for dz=%r zDist=%r' % (ans, o['dz'], zd),
@@ -519,6 +527,17 @@ def judge_object(chk, c, o, answers):
             sign = 'negative' if zd < 0 else 'positive'
             chk.violation('FluxSurfaceAdvection.step:%s-displacement' % sign,
                           'step differs from sum_j c_j S_{(i+s_j)%%nz}(theta+shift_j) by %.3g > %.3g' % (err, tol), rep)
+        q = fr(zd) / fr(o['dz'])
+        if q == round(q) and o['dtheta'][a] == 0.0:
+            # direct oracle: whole number of cells, no twist -> circular shift of the nodal values (the spline
+            # interpolates them up to the conditioning of the collocation solve: 1e-12 * max|f| is ample)
+            n = int(q)
+            nz_ = len(s['cs'])
+            dev = max(abs(s['out'][k][i] - s['f'][k][(i + n) % nz_]) for k in range(len(s['f'])) for i in range(nz_))
+            chk.cov['integer_shift_float_checks'] = chk.cov.get('integer_shift_float_checks', 0) + 1
+            if dev > 1e-12 * max(1.0, max(abs(x) for r1 in s['f'] for x in r1)):
+                chk.violation('FluxSurfaceAdvection.step:integer-shift', 'displacement of %d cells without twist is not the circular '
+                              'shift of the nodal values: deviation %.3g' % (n, dev), rep)
         if s['kind'] == 'const':
             dev = max(abs(x - 0.75) for r1 in s['out'] for x in r1)
             if dev > tol + 64 * U:
@@ -591,7 +610,7 @@ def run():
                     xs, ys = [p.split() for p in x.split('|')], [p.split() for p in y[2:].split('|')]
                     same = xs[0] == ys[0] and all([qparse(u) for u in xs[i]] == [qparse(u) for u in ys[i]] for i in (1, 2))
                     if not same:
-                        sign = 'negative' if F(x.split('|')[0].split()[2]) < 0 else 'positive'
+                        sign = 'negative' if int(ys[0][2]) < 0 else 'positive'
                         bad = 'entry %d: code %s / model %s' % (t, x[:120], y[:120])
                         chk.violation('_getLagrangePts(exact):%s-displacement' % sign, bad, replay)
                         bad = ''
